@@ -901,6 +901,19 @@ def rule_intrinsic(chk, P):
                     emit[pv[1]] = (forms[0]["variant"], l[1])
     chk.floor(P + ".floor/intrinsic-forms", len(emit), 238, "Intrinsic -> emitted name entries", where(g))
     decl = {}
+    sigs = {}       # intrinsic -> source name -> parameter lists declared under that name
+
+    def _sig_repr(e):
+        import json as _j
+
+        def strip_ln(x):
+            if isinstance(x, dict):
+                return {k: strip_ln(v) for k, v in x.items() if k != "ln"}
+            if isinstance(x, list):
+                return [strip_ln(v) for v in x]
+            return x
+        arrs = [a for a in F.walk(e or {}) if isinstance(a, dict) and a.get("k") == "Array"]
+        return _j.dumps(strip_ln(arrs[0]["elems"]) if arrs else strip_ln(e), sort_keys=True)
     for b in f.crates["rssl_ir"]["bodies"]:
         if "intrinsic_data" not in b["path"] or "thir" not in b:
             continue
@@ -911,6 +924,7 @@ def rule_intrinsic(chk, P):
                 intr = F.adt_ctor(fl.get("intrinsic", {}))
                 if nm and intr:
                     decl.setdefault(intr[1], set()).add(nm[1])
+                    sigs.setdefault(intr[1], {}).setdefault(nm[1], set()).add(_sig_repr(fl.get("param_types")))
     chk.floor(P + ".floor/intrinsic-declarations", len(decl), 243, "intrinsics declared in intrinsic_data", "ir/src/intrinsic_data.rs")
     for intr, names in sorted(decl.items()):
         e = emit.get(intr)
@@ -921,6 +935,16 @@ def rule_intrinsic(chk, P):
             continue
         # several source spellings may be declared for one Intrinsic (Gather / GatherRed are aliases): the emitted name must be one of them
         ok = e[1] in names
+        if ok and len(names) > 1:
+            # aliases: every parameter list that can be called under some source name must also exist under the emitted name
+            under = sigs.get(intr, {})
+            have = under.get(e[1], set())
+            lost = sorted(n_ for n_, ss in under.items() if n_ != e[1] and ss - have)
+            if lost:
+                k_ = len(next(iter(under[lost[0]] - have)).split('"adt"')) - 1
+                chk.ob(P + ".intrinsic/%s" % intr, False, "Intrinsic::%s is exported as `%s`, but `%s` is declared with a parameter list that `%s` does not have: that overload, written as %s in the source, "
+                       "is exported as a call no declaration accepts" % (intr, e[1], lost[0], e[1], lost[0]), where(g), sample={"intrinsic": intr, "emitted": e[1], "declared_only_as": lost})
+                continue
         chk.ob(P + ".intrinsic/%s" % intr, ok, "%s: declared %s, emitted %s" % (intr, sorted(names), e[1]) if ok else
                "Intrinsic::%s is declared under the source name %s but exported as `%s`: a different HLSL function is called" % (intr, sorted(names), e[1]),
                where(g), sample={"intrinsic": intr, "declared": sorted(names), "emitted": e[1]})
